@@ -26,13 +26,35 @@ class _VirtualSelector:
         return getattr(self._sel, name)
 
     def select(self, timeout=None):
+        loop = self._loop
         events = self._sel.select(0)
         if events:
+            loop._idle_spins = 0
             return events
         if timeout is None:
             raise Deadlock('no I/O ready and no timer scheduled')
         if timeout > 0:
-            self._loop._vtime += timeout
+            loop._vtime += timeout
+            loop._idle_spins = 0
+            return []
+        # timeout == 0: something is runnable right now (exabgp's main loop spins on sleep(0)).
+        # A spin costs a little virtual time; once nothing observable has happened for a few spins the
+        # clock jumps to the next timer, as it would on an idle loop.
+        loop._idle_spins += 1
+        loop._total_spins += 1
+        if loop._idle_spins >= loop.SPIN_LIMIT:
+            nxt = loop._next_timer()
+            if nxt is None:
+                if loop._idle_spins > 200000:
+                    raise Deadlock('spinning with no timer scheduled')
+                loop._vtime += loop.SPIN_COST
+            elif nxt > loop._vtime:
+                loop._vtime = nxt
+                loop._idle_spins = 0
+            else:
+                loop._vtime += loop.SPIN_COST
+        else:
+            loop._vtime += loop.SPIN_COST
         return []
 
 
@@ -44,6 +66,21 @@ class VirtualLoop(asyncio.SelectorEventLoop):
         sel = _VirtualSelector(self)
         super().__init__(selector=sel)  # type: ignore[arg-type]
         self._clock_resolution = 1e-9
+        self._idle_spins = 0
+        self._total_spins = 0
+
+    SPIN_LIMIT = 8
+    SPIN_COST = 0.0001
+
+    def note_activity(self) -> None:
+        """the harness saw something observable happen (bytes written, state change): do not skip time yet"""
+        self._idle_spins = 0
+
+    def _next_timer(self):
+        for handle in sorted(self._scheduled)[:8] if len(self._scheduled) < 64 else [self._scheduled[0]]:
+            if not handle._cancelled:
+                return handle._when
+        return self._scheduled[0]._when if self._scheduled else None
 
     def time(self) -> float:
         return self._vtime
